@@ -4036,6 +4036,11 @@ func (p *Posix) headObject(ctx context.Context, input *s3.HeadObjectInput) (*s3.
 	}
 
 	size := fi.Size()
+	if fi.IsDir() {
+		// directory objects are always 0 len (as GetObject and the
+		// listings report them), whatever the directory inode says
+		size = 0
+	}
 
 	var objectLockLegalHoldStatus types.ObjectLockLegalHoldStatus
 	status, err := p.GetObjectLegalHold(ctx, bucket, object, versionId)
